@@ -102,5 +102,12 @@ def instGe (a b : Instant) : Bool := Duration.ge a.dur b.dur
 def instEq (a b : Instant) : Bool := decide (a = b)
 def instNe (a b : Instant) : Bool := !decide (a = b)
 
+/-- `LocalTime.tick_of_day` of a time of day carried as its nanosecond of day (`_local_time.py`:
+    `_towards_zero_division(self.__nanoseconds, NANOSECONDS_PER_TICK)`) -/
+def ltTickOfDay (nod : Int) : R Int := pyTdiv nod NPT
+
 end Codec
 end Pyoda.Gen
+
+/-- a `_TransitionMode` member as the integer it is (an `IntEnum`: UTC = 0, WALL = 1, STANDARD = 2) -/
+def Pyoda.TransitionMode.toInt (m : Pyoda.TransitionMode) : Int := (m.toNat : Int)
